@@ -64,18 +64,30 @@ theorem read_fails_only_at_end (k : Nat) (st : RState) (e : Err)
     (h : readCall (st.conn.length + 1) k st = .error e) : st.buf = [] ∧ delivered st.conn = ([], e) :=
   readCall_err _ k st e (by omega) h
 
+/-- Tie: the final comparison of `readServerHello` covers all 32 digest bytes. -/
+theorem digest_compared_in_full : Facts.C19.digestCmpLen = 32 := by decide
+
 /-- **Server digest.**  `readServerHello` accepts iff the record structure is the expected one and the
 32 bytes at offset 11 of the consumed packet equal `HMAC(secret, clientRandom ‖ packet with those 32
 bytes zeroed)`. -/
-theorem serverHello_ok_iff (hmac : Bytes → Bytes → Bytes) (clientRandom secret s rest : Bytes) :
+theorem serverHello_ok_iff (hmac : Bytes → Bytes → Bytes) (hlen : ∀ k m, (hmac k m).length = 32)
+    (clientRandom secret s rest : Bytes) :
     readServerHello hmac clientRandom secret s = .ok rest ↔
       helloShape s = .ok rest ∧
       hmac secret (clientRandom ++ zeroDigest (packetOf s rest)) = digestOf (packetOf s rest) := by
+  have hcmp : Facts.C19.digestCmpLen = 32 := by decide
+  have htake : ∀ r : Bytes, ((hmac secret (clientRandom ++ zeroDigest (packetOf s r))).take 32
+        = (digestOf (packetOf s r)).take 32) ↔
+      hmac secret (clientRandom ++ zeroDigest (packetOf s r)) = digestOf (packetOf s r) := by
+    intro r
+    rw [List.take_of_length_le (by rw [hlen]; omega),
+      List.take_of_length_le (by unfold digestOf; simp only [List.length_take]; omega)]
   unfold readServerHello
+  rw [hcmp]
   cases h : helloShape s with
   | error e => simp
   | ok r =>
-    simp only
+    simp only [htake]
     constructor
     · intro hh
       split at hh
@@ -93,16 +105,28 @@ theorem serverHello_packet (s rest : Bytes) (h : helloShape s = .ok rest) :
 
 /-- A hello whose digest was made with another secret or client random is rejected whenever that
 changes the HMAC value (no collision assumption is made: the hypothesis is the inequality itself). -/
-theorem serverHello_wrong_key_rejected (hmac : Bytes → Bytes → Bytes) (cr secret cr' secret' s rest : Bytes)
+theorem serverHello_wrong_key_rejected (hmac : Bytes → Bytes → Bytes) (hlen : ∀ k m, (hmac k m).length = 32)
+    (cr secret cr' secret' s rest : Bytes)
     (hshape : helloShape s = .ok rest)
     (hmade : digestOf (packetOf s rest) = hmac secret' (cr' ++ zeroDigest (packetOf s rest)))
     (hdiff : hmac secret (cr ++ zeroDigest (packetOf s rest)) ≠ hmac secret' (cr' ++ zeroDigest (packetOf s rest))) :
     readServerHello hmac cr secret s = .error .digest := by
-  unfold readServerHello
-  rw [hshape]
-  simp only
-  rw [hmade]
-  simp [hdiff]
+  cases hr : readServerHello hmac cr secret s with
+  | ok r =>
+    have := (serverHello_ok_iff hmac hlen cr secret s r).mp hr
+    rw [hshape] at this
+    obtain ⟨hrr, hd⟩ := this
+    simp only [Except.ok.injEq] at hrr
+    subst hrr
+    rw [hmade] at hd
+    exact absurd hd hdiff
+  | error e =>
+    unfold readServerHello at hr
+    rw [hshape] at hr
+    simp only at hr
+    split at hr
+    · simp at hr
+    · simp only [Except.error.injEq] at hr; rw [← hr]
 
 /-- **ClientHello.**  `writeClientHello` changes only the 32-byte random field of the generated
 record, returns that field as the client random, and makes it the HMAC of the record (random zeroed)
